@@ -5,7 +5,7 @@
              A finite number is twice/2 (generators emit half-integers of magnitude < 2^50 so python floats are exact);
              numpy scalars / datetime.date are mapped by the harness to the primitive as_primitive gives them.
    cmp     : transcribes _sort.cmp: ints -> float, rank of str(type(x)), len0, dicts by items sorted by cmp of their keys (keys, then values; keys of any type),
-             NaN / +-inf |-> +inf, containers lexicographic (zip), else native <.
+             NaN above every number (-inf < finite < +inf < NaN), containers lexicographic (zip), else native <.
              One REPAIRED point: two (distinct) empty dicts compare 0 (the pinned code raises ValueError from
              `xk, xv = zip( *sorted(x.items()))`; see fixes/C07.patch).
    sort    : REPAIRED behaviour of _sort.sort on the property's domain (None, ints, finite floats, NaN, str, datetimes and
@@ -69,14 +69,16 @@ Definition len0 (v : val) : Z :=
   | VDict l => Z.of_nat (length l)
   | _ => 0
   end.
-(* floats after `if is_nan(x): x = np.inf` (is_nan is true on nan and on +-inf): None = +inf *)
-Definition numkey (v : val) : option Z := match v with VNum _ t => Some t | _ => None end.
-Definition cmp_ext (a b : option Z) : comparison :=
+(* numbers on the extended line: -inf < every finite number < +inf < NaN (a float NaN ties with any NaN and ranks above every
+   number, +inf included; since fixes/C07-inf.patch +-inf compare by value - the pinned code sent NaN and +-inf alike to +inf) *)
+Inductive ekey := ENegInf | EFin (t : Z) | EPosInf | ENaN.
+Definition numkey (v : val) : ekey :=
+  match v with VNum _ t => EFin t | VInf true => ENegInf | VInf false => EPosInf | _ => ENaN end.
+Definition erank (k : ekey) : Z := match k with ENegInf => 0 | EFin _ => 1 | EPosInf => 2 | ENaN => 3 end.
+Definition cmp_ext (a b : ekey) : comparison :=
   match a, b with
-  | Some x, Some y => Z.compare x y
-  | Some _, None => Lt
-  | None, Some _ => Gt
-  | None, None => Eq
+  | EFin x, EFin y => Z.compare x y
+  | _, _ => Z.compare (erank a) (erank b)
   end.
 
 Definition body_scalar (x y : val) : comparison :=
@@ -192,6 +194,7 @@ Definition elem_eqb (x y : val) : bool :=
   | VStr a, VStr b => match cmp_str a b with Eq => true | _ => false end
   | VDate a, VDate b => a =? b
   | VNaN i, VNaN j => N.eqb i j          (* identity, as used by `in` / tuple == / dict lookup *)
+  | VInf a, VInf b => Bool.eqb a b
   | _, _ => false
   end.
 Fixpoint last_index (x : val) (vals : list val) (i : Z) : option Z :=
